@@ -2,12 +2,15 @@ package main
 
 import (
 	"fmt"
+	"io"
 	"math"
 	"net/http"
 	"os"
 	"path/filepath"
 	"sort"
 	"strings"
+	"sync"
+	"sync/atomic"
 	"time"
 
 	"github.com/flosch/pongo2/v6"
@@ -291,6 +294,10 @@ func runC01(r *run) {
 		for i := 0; i < 4*len(c01DirRefs); i++ {
 			cases = append(cases, caseT{"realdir", []string{fmt.Sprint(i)}})
 		}
+		// (j) many executions at once, each with context keys nobody has used before
+		for i := 0; i < 6; i++ {
+			cases = append(cases, caseT{"conckeys", []string{fmt.Sprint(i)}})
+		}
 		// (c) the recorded finding: cyclic references between templates
 		for _, fs := range []map[string]string{
 			{"a.tpl": "{% include \"a.tpl\" %}"},
@@ -320,7 +327,7 @@ func runC01(r *run) {
 			if len(c.args[0]) > 8 {
 				r.nontrivial(c.args[0])
 			}
-			if i%4999 == 0 {
+			if i%4999 == 0 && len(c.args) > 2 {
 				r.sample(map[string]any{"source": unhx(c.args[0]), "observed": res[i].obs})
 			}
 			cls := res[i].obs
@@ -334,6 +341,10 @@ func runC01(r *run) {
 					continue
 				}
 				r.stats["panicmsg:"+res[i].reject]++
+				if c.op == "conckeys" {
+					r.reject(id, "several simultaneous executions with fresh context keys did not return: "+cls, map[string]any{"op": c.op, "observed": cls, "message": res[i].reject})
+					continue
+				}
 				if c.op == "realdir" {
 					var ri int
 					fmt.Sscanf(c.args[0], "%d", &ri)
@@ -349,6 +360,50 @@ func runC01(r *run) {
 }
 
 func execC01(r *run, c caseT) {
+	if c.op == "conckeys" {
+		var i int
+		fmt.Sscanf(c.args[0], "%d", &i)
+		tpl, err := pongo2.FromString("{{ a }}{% for k in l %}{{ k }}{% endfor %}{% include n if_exists %}")
+		must(err)
+		var wg sync.WaitGroup
+		start := make(chan struct{})
+		bad := int32(0)
+		for gi := 0; gi < 8; gi++ {
+			wg.Add(1)
+			go func(gi int) {
+				defer wg.Done()
+				defer func() {
+					if recover() != nil {
+						atomic.AddInt32(&bad, 1)
+					}
+				}()
+				<-start
+				for rep := 0; rep < 200; rep++ {
+					cx := pongo2.Context{"a": 1, "l": []int{1}, "n": ""}
+					for k := 0; k < 6; k++ {
+						cx[fmt.Sprintf("key_%d_%d_%d_%d", i, gi, rep, k)] = k
+					}
+					if rep%50 == 7 {
+						cx["not an identifier"] = 1
+					}
+					_, _ = tpl.Execute(cx)
+					_ = tpl.ExecuteWriterUnbuffered(cx, io.Discard)
+				}
+			}(gi)
+		}
+		close(start)
+		wg.Wait()
+		obs := "ok"
+		if bad > 0 {
+			obs = "panic"
+		}
+		id := r.emit(c.op, c.args, obs)
+		r.nontrivial("conckeys" + c.args[0])
+		if bad > 0 {
+			r.reject(id, "panic in one of several simultaneous executions", nil)
+		}
+		return
+	}
 	if c.op == "realdir" {
 		execRealDir(r, c)
 		return
